@@ -22,7 +22,10 @@ def hx(s):
 
 # ----------------------------------------------------------------------------- cases
 def entry_tok(e):
-    return "%d:%s:%d:%s:%d:%s" % (e["idx"], e["kind"], e["ts"], "-" if e["exp"] is None else str(e["exp"]), e.get("rev", 0), hx(e["spec"]))
+    tok = "%d:%s:%d:%s:%d:%s" % (e["idx"], e["kind"], e["ts"], "-" if e["exp"] is None else str(e["exp"]), e.get("rev", 0), hx(e["spec"]))
+    if e.get("mid"):
+        tok += ":%d" % e["mid"]      # explicit robust.Message.Id (read by the Go driver only; the model keys everything by raft index)
+    return tok
 
 
 def config_in_force(entries):
@@ -44,7 +47,8 @@ def pick_revision(rng, rev, p_consecutive):
 
 
 def case_line(c, variant="11", queries=()):
-    f = ["fsm", str(c["id"]), (variant + D18["flag"])[:3], str(c["proto"]), c["sink"], "L"]
+    sink = c["sink"] + ("@%d" % c["offset"] if c.get("offset") else "")     # @n: robust.MessageOffset = n
+    f = ["fsm", str(c["id"]), (variant + D18["flag"])[:3], str(c["proto"]), sink, "L"]
     f += [entry_tok(e) for e in c["entries"]]
     f.append("S")
     f += list(c["steps"])
@@ -66,6 +70,20 @@ def simple_entries(rng, tier):
     now = T0
     rev = 0
     jump_at = rng.randint(2, n - 1)
+    # message ids: the output stream is keyed by MESSAGE id = explicit Id if the message carries one (legacy pre-#150
+    # UNIX-nanosecond ids), else robust.MessageOffset + raft index
+    LEG = 1420000000 * S
+    idmode = rng.choices(["index", "offset", "legacy", "legacy-then-offset"], [55, 15, 15, 15])[0]
+    offset = {"index": 0, "offset": rng.choice([1000, 7804071725000000000]), "legacy": 0, "legacy-then-offset": LEG + 10 ** 15}[idmode]
+    nlegacy = {"index": 0, "offset": 0, "legacy": 10 ** 9, "legacy-then-offset": rng.randint(3, max(3, n - 2))}[idmode]
+
+    def mid_of(i):
+        return LEG + i * 1000 + 7 if i <= nlegacy else 0
+
+    def R(i):
+        """the id under which the state machine knows the session created by entry i"""
+        return mid_of(i) or offset + i
+
     for k in range(n):
         idx += 1
         if rng.random() < 0.15 and k > 0:
@@ -99,7 +117,7 @@ def simple_entries(rng, tier):
                 rev = erev
         elif r < 0.26 and len(live) > 1:
             sid = rng.choice(live)
-            spec = "D%d bye" % sid
+            spec = "D%d bye" % R(sid)
             sessions.remove(sid)
             logged.discard(sid)
         else:
@@ -107,30 +125,31 @@ def simple_entries(rng, tier):
             if sid not in logged:
                 step = rng.random()
                 if step < 0.5:
-                    spec = "I%d NICK n%d" % (sid, sid)
+                    spec = "I%d NICK n%d" % (R(sid), sid)
                 else:
-                    spec = "I%d USER u%d 0 * :User %d" % (sid, sid, sid)
+                    spec = "I%d USER u%d 0 * :User %d" % (R(sid), sid, sid)
                     if rng.random() < 0.8:
                         logged.add(sid)   # approximation; only drives the distribution
             else:
                 c = rng.choice(chans)
-                spec = "I%d " % sid + rng.choice([
+                spec = "I%d " % R(sid) + rng.choice([
                     "JOIN " + c, "PRIVMSG " + c + " :hello %d" % idx, "PART " + c, "TOPIC " + c + " :t%d" % idx,
                     "PING x", "AWAY :gone", "NICK m%d" % idx, "MODE " + c + " +t", "NAMES " + c, "WHOIS n%d" % rng.choice(live)])
             if rng.random() < 0.04:
                 kind = "m"
         if kind == "m" and exp is not None:
             kind = "c"
-        entries.append({"idx": idx, "kind": kind, "ts": ts, "exp": exp, "rev": erev, "spec": spec})
+        entries.append({"idx": idx, "kind": kind, "ts": ts, "exp": exp, "rev": erev, "spec": spec, "mid": mid_of(idx)})
     # behavioural tail: every surviving session acts once more after the last restore
     for sid in sessions[:4]:
         idx += 1
         now += rng.randint(1, S)
         c = rng.choice(chans)
         entries.append({"idx": idx, "kind": "c", "ts": now, "exp": None,
-                        "spec": "I%d " % sid + rng.choice(["JOIN " + c, "PRIVMSG " + c + " :probe", "WHOIS n%d" % sid, "NICK p%d" % idx])})
+                        "mid": mid_of(idx),
+                        "spec": "I%d " % R(sid) + rng.choice(["JOIN " + c, "PRIVMSG " + c + " :probe", "WHOIS n%d" % sid, "NICK p%d" % idx])})
     ntail = min(4, len(sessions))
-    return entries, len(entries) - ntail, {"pattern": pattern, "big_exp": big, "kind": "simple"}
+    return entries, len(entries) - ntail, {"pattern": pattern, "big_exp": big, "kind": "simple", "idmode": idmode, "offset": offset}
 
 
 class RichGen(irclib.Gen):
@@ -373,7 +392,7 @@ def gen_case(rng, cid, tier, allow_d18=False, d18_window=False, rich=False, allo
     cmd_ts = [e["ts"] for e in entries if e["kind"] != "i"]
     k = rng.random()
     tail_t = max(cmd_ts) + 3 * 3600 * S if k < 0.6 else min(cmd_ts) if k < 0.8 else max(cmd_ts[:max(1, len(cmd_ts) // 2)]) + TEN_MIN + INTERVAL
-    c = {"id": cid, "proto": proto, "sink": "F" if rng.random() < 0.12 else "M", "entries": entries, "steps": steps,
+    c = {"id": cid, "proto": proto, "sink": "F" if rng.random() < 0.12 else "M", "offset": meta.get("offset", 0), "entries": entries, "steps": steps,
          "meta": dict(meta, main=nmain, tail_t=tail_t, finalized=False)}
     return c
 
@@ -1033,6 +1052,8 @@ def run(ck, replay):
         dist["file_sink_cases"] += 1 if c["sink"] == "F" else 0
         p = c.get("meta", {}).get("pattern", "corpus")
         dist["patterns"][p] = dist["patterns"].get(p, 0) + 1
+        im = c.get("meta", {}).get("idmode") or ("legacy" if any(e.get("mid") for e in c["entries"]) else "offset" if c.get("offset") else "index")
+        dist.setdefault("message_ids", {})[im] = dist.setdefault("message_ids", {}).get(im, 0) + 1
         cf = dist.setdefault("config_entries", {"taking_effect": 0, "skipped_revision_not_consecutive": 0, "not_parsing": 0})
         rv = 0
         for e in c["entries"]:
